@@ -162,7 +162,7 @@ theorem lateAttempt_clean (s : State) (k : EnvId) (force keep : Bool) (o : DOrac
     (hE : s.env? k = some E) (hwf : envWf s k E.tasks = true) (hfaith : statusFaithful s E.tasks = true)
     (hrel : hooksOk s E.hooks = true) (hhk : ∀ h ∈ E.hooks, h.task ∈ E.tasks)
     (r : State × Res × List TEv) (hr : lateAttempt s k (envTaskIds s k) force keep o = some r) (hok : r.2.1 = .ok) :
-    cleanAfter k keep (viewOf r.1) = true := by
+    destroyedClean k keep (viewOf r.1) = true := by
   have hids : envTaskIds s k = E.tasks := by unfold envTaskIds; rw [hE]
   rw [hids] at hr
   have := lateAttempt_some s k E.tasks force keep o r hr
@@ -174,7 +174,7 @@ theorem lateRetry_clean (s : State) (k : EnvId) (keep : Bool) (o : DOracle) (E :
     (hE : s.env? k = some E) (hwf : envWf s k E.tasks = true) (hfaith : statusFaithful s E.tasks = true)
     (hrel : hooksOk s E.hooks = true) (hhk : ∀ h ∈ E.hooks, h.task ∈ E.tasks)
     (hok : (lateRetry s k (envTaskIds s k) keep o).2.1 = .ok) :
-    cleanAfter k keep (viewOf (lateRetry s k (envTaskIds s k) keep o).1) = true := by
+    destroyedClean k keep (viewOf (lateRetry s k (envTaskIds s k) keep o).1) = true := by
   have hids : envTaskIds s k = E.tasks := by unfold envTaskIds; rw [hE]
   rw [hids] at hok ⊢
   rw [lateRetry_eq] at hok ⊢
@@ -592,10 +592,10 @@ theorem freshEnv_of_sub {s s' : State} (k : EnvId) (h : freshEnv s k = true)
     · exact g4 X h1
     · right; exact h1
 
-theorem freshEnv_doKill (s : State) (toKill : List Task) (k : EnvId) (h : freshEnv s k = true) :
-    freshEnv (doKill s toKill) k = true := by
+theorem freshEnv_doKill (s : State) (toKill : List Task) (hsub : List.Sublist toKill s.roster) (k : EnvId)
+    (h : freshEnv s k = true) : freshEnv (doKill s toKill) k = true := by
   apply freshEnv_of_sub k h
-  · intro t ht; exact (List.mem_filter.mp ht).1
+  · intro t ht; exact mem_doKill_roster hsub ht
   · intro m' hm'
     simp only [doKill, killMany] at hm'
     obtain ⟨m, hm, rfl⟩ := List.mem_map.mp hm'
@@ -617,7 +617,7 @@ theorem freshEnv_prefix_step (s : State) (k : EnvId) (spec : EnvSpec) (st : Step
     · split <;> exact freshEnv_of_sub k h (fun _ ht => ht) (fun m hm => ⟨m, hm, rfl⟩) rfl (fun _ hX => Or.inl hX)
   · simp only [createCleanup]
     split
-    · exact freshEnv_of_sub k (freshEnv_doKill s _ k h) (fun _ ht => ht) (fun m hm => ⟨m, hm, rfl⟩) rfl (fun _ hX => Or.inl hX)
+    · exact freshEnv_of_sub k (freshEnv_doKill s _ List.filter_sublist k h) (fun _ ht => ht) (fun m hm => ⟨m, hm, rfl⟩) rfl (fun _ hX => Or.inl hX)
     · exact h
   · simp only [createInsert]
     split
@@ -643,5 +643,146 @@ theorem freshEnv_prefix (s : State) (k : EnvId) (spec : EnvSpec) (h : freshEnv s
   simp only [run]
   exact freshEnv_prefix_step _ k spec _ (Or.inr (Or.inr rfl))
     (freshEnv_prefix_step _ k spec _ (Or.inr (Or.inl rfl)) (freshEnv_prefix_step _ k spec _ (Or.inl rfl) h))
+
+end Own
+
+namespace Own
+
+/-! ### two creations whose DEPLOY sections overlap -/
+
+/-- `settleDeploy` followed by `settleRest` is the creation settled in one go. -/
+theorem settleRest_seq (s : State) (k : EnvId) (o : SettleOracle) :
+    settleSeq s k o = match settleDeploy s k o with
+      | (s1, none, r) => (s1, r)
+      | (s1, some m, _) => settleRest s1 m := by
+  unfold settleSeq
+  split
+  · rename_i heq; rw [heq]
+  · rename_i heq; rw [heq]; rfl
+
+theorem settleDeploy_facts (s : State) (k : EnvId) (o : SettleOracle) (h : Inv s) :
+    Inv (settleDeploy s k o).1 ∧
+    (∀ m, (settleDeploy s k o).2.1 = some m → m.k = k ∧ ∀ p ∈ (settleDeploy s k o).1.creating, p.id ≠ k) ∧
+    (∀ p ∈ (settleDeploy s k o).1.creating, p ∈ s.creating) := by
+  unfold settleDeploy
+  split
+  · exact ⟨h, fun m hm => by simp at hm, fun p hp => hp⟩
+  · rename_i p hpk
+    obtain ⟨hpm, _, _⟩ := pending?_some hpk
+    have hd := inv_dropPending s k h
+    have hp : ∀ q ∈ (dropPending s k).creating, q.id ≠ k := by
+      intro q hq
+      have := (List.mem_filter.mp hq).2
+      simpa using this
+    have hsub : ∀ q ∈ (dropPending s k).creating, q ∈ s.creating := fun q hq => (List.mem_filter.mp hq).1
+    simp only []
+    split
+    · exact ⟨hd, fun m hm => by simp only [Option.some.injEq] at hm; subst hm; exact ⟨rfl, hp⟩, hsub⟩
+    · have hcl : claimsOf (dropPending s k) p = computeClaims (dropPending s k) p.spec := by
+        unfold claimsOf; rw [h.pendClaims p hpm]
+      rw [hcl]
+      split
+      · exact ⟨inv_congr hd rfl rfl rfl rfl rfl, fun m hm => by simp at hm, hsub⟩
+      · have ha := inv_acquire_fn (dropPending s k) k p.spec (computeClaims (dropPending s k) p.spec) o hd hp (computeClaims_sound _ _)
+        refine ⟨ha, fun m hm => ?_, ?_⟩
+        · simp only [Option.some.injEq] at hm; subst hm
+          exact ⟨rfl, by rw [acquire_creating]; exact hp⟩
+        · rw [acquire_creating]; exact hsub
+
+theorem inv_settleRest (s : State) (m : Mid) (h : Inv s) (hp : ∀ p ∈ s.creating, p.id ≠ m.k) :
+    Inv (settleRest s m).1 ∧ (settleRest s m).1.creating = s.creating := by
+  have htail : ∀ (s' : State) (m' : Mid), m'.k = m.k → Inv s' → s'.creating = s.creating →
+      Inv (settleTail s' m').1 ∧ (settleTail s' m').1.creating = s.creating := by
+    intro s' m' hk h' hc
+    rw [settleTail_eq]
+    refine ⟨inv_createFail s' m'.k m'.ids m'.late m'.res m'.hf h' (by rw [hc, hk]; exact hp), ?_⟩
+    unfold createFail
+    simp only []
+    split
+    · rw [teardown_creating]; exact hc
+    · rw [killTasks_creating, teardown_creating]; exact hc
+  unfold settleRest
+  split
+  · -- CONFIGURE
+    have hcfg : Inv (settleConfigure s m).1 ∧ (settleConfigure s m).1.creating = s.creating ∧ (settleConfigure s m).2.k = m.k := by
+      unfold settleConfigure
+      split
+      · exact ⟨h, rfl, rfl⟩
+      · rename_i E _
+        simp only []
+        have h3 : Inv (lostAll (setEnv (applyTrans s { E with state := .DEPLOYED } .CONFIGURE m.fails).1 m.k
+            (fun X => { X with pending := X.pending + callCount m.spec, started := X.started + callCount m.spec })) m.lost) :=
+          inv_lostAll _ _ (inv_setEnv _ _ _ (inv_applyTrans s _ _ _ h) (fun _ => ⟨rfl, rfl, rfl, rfl⟩))
+        have hc3 : (lostAll (setEnv (applyTrans s { E with state := .DEPLOYED } .CONFIGURE m.fails).1 m.k
+            (fun X => { X with pending := X.pending + callCount m.spec, started := X.started + callCount m.spec })) m.lost).creating = s.creating :=
+          (lostAll_frame _ _).2.1
+        split
+        · exact ⟨inv_setEnv_state _ _ _ h3, hc3, rfl⟩
+        · exact ⟨h3, hc3, rfl⟩
+    simp only []
+    split
+    · exact ⟨hcfg.1, hcfg.2.1⟩
+    · exact htail _ _ hcfg.2.2 hcfg.1 hcfg.2.1
+  · exact htail s m rfl h rfl
+
+/-- **Every state two overlapping creations pass through satisfies the invariant** — if the claims are made inside
+    the DEPLOY sections (`Inv`: no pending creation carries claims of a free-standing claim step): the second
+    DEPLOY then finds the task the first one took locked, and does not claim it. -/
+theorem inv_settleOverlapStates (s : State) (k1 k2 : EnvId) (o1 o2 : SettleOracle) (b : Bool) (h : Inv s) :
+    ∀ st ∈ settleOverlapStates s k1 k2 o1 o2 b, Inv st := by
+  obtain ⟨i1, f1, c1⟩ := settleDeploy_facts s k1 o1 h
+  unfold settleOverlapStates
+  split
+  · rename_i s1 m1 r1 heq
+    have e1 : (settleDeploy s k1 o1).1 = s1 := by rw [heq]
+    have e2 : (settleDeploy s k1 o1).2.1 = some m1 := by rw [heq]
+    rw [e1] at i1 f1 c1
+    obtain ⟨hk1, hp1⟩ := f1 m1 e2
+    obtain ⟨i2, f2, c2⟩ := settleDeploy_facts s1 k2 o2 i1
+    split
+    · rename_i s2 m2 r2 heq2
+      have e3 : (settleDeploy s1 k2 o2).1 = s2 := by rw [heq2]
+      have e4 : (settleDeploy s1 k2 o2).2.1 = some m2 := by rw [heq2]
+      rw [e3] at i2 f2 c2
+      obtain ⟨hk2, hp2⟩ := f2 m2 e4
+      have hp21 : ∀ p ∈ s2.creating, p.id ≠ m1.k := fun p hp => by rw [hk1]; exact hp1 p (c2 p hp)
+      have hp22 : ∀ p ∈ s2.creating, p.id ≠ m2.k := fun p hp => by rw [hk2]; exact hp2 p hp
+      split
+      · obtain ⟨a1, a2⟩ := inv_settleRest s2 m1 i2 hp21
+        obtain ⟨b1, _⟩ := inv_settleRest (settleRest s2 m1).1 m2 a1 (by rw [a2]; exact hp22)
+        intro st hst
+        simp only [List.mem_cons, List.mem_nil_iff, or_false] at hst
+        rcases hst with rfl | rfl | rfl | rfl
+        · exact i1
+        · exact i2
+        · exact a1
+        · exact b1
+      · obtain ⟨a1, a2⟩ := inv_settleRest s2 m2 i2 hp22
+        obtain ⟨b1, _⟩ := inv_settleRest (settleRest s2 m2).1 m1 a1 (by rw [a2]; exact hp21)
+        intro st hst
+        simp only [List.mem_cons, List.mem_nil_iff, or_false] at hst
+        rcases hst with rfl | rfl | rfl | rfl
+        · exact i1
+        · exact i2
+        · exact a1
+        · exact b1
+    · rename_i s2 r2 heq2
+      have e3 : (settleDeploy s1 k2 o2).1 = s2 := by rw [heq2]
+      rw [e3] at i2 c2
+      have hp21 : ∀ p ∈ s2.creating, p.id ≠ m1.k := fun p hp => by rw [hk1]; exact hp1 p (c2 p hp)
+      obtain ⟨a1, _⟩ := inv_settleRest s2 m1 i2 hp21
+      intro st hst
+      simp only [List.mem_cons, List.mem_nil_iff, or_false] at hst
+      rcases hst with rfl | rfl | rfl
+      · exact i1
+      · exact i2
+      · exact a1
+  · rename_i s1 r1 heq
+    have e1 : (settleDeploy s k1 o1).1 = s1 := by rw [heq]
+    rw [e1] at i1
+    intro st hst
+    simp only [List.mem_cons, List.mem_nil_iff, or_false] at hst
+    subst hst
+    exact i1
 
 end Own
